@@ -1,18 +1,26 @@
 /-
-Contracts.RoundTrip — properties C03 and C02.
+Contracts.RoundTrip — properties C03 and C02 (and the semantic half of C11).
 
 C03: parsing the TUCAN string produced for a molecule yields a graph isomorphic to that molecule with the
 same element, isotope mass and radical on every corresponding atom and the same number of atoms and bonds.
 C02: molecules that are not isomorphic (as graphs coloured by element, mass, radical) get different
 TUCAN strings.
 
-1. `render : Ast → Str` (the characters of an abstract syntax tree), `astOf ms : Ast` (the syntax tree
-   of the string emitted for the sorted graph `ms`), `tucanSpec ms = render (astOf ms)`, `(astOf ms).Wf`
-2. `denote_astOf`: the denotation of `astOf ms` is `ms` itself, atom by atom and bond by bond
-3. `C03_iso`: the listener run over `treeOf (astOf ms)` returns the identity-isomorphic copy of `ms`
-4. `C02_main`: equal strings ⇒ identity-isomorphic sorted graphs
+1. `render : Ast → Str` (the characters of an abstract syntax tree), `astOf ms : Ast` (the syntax tree of the
+   string emitted for the sorted graph `ms`), `tucanSpec_eq_render`, `astOf_wf`; `text_treeOf` (sanity:
+   `render a` is the token text of `treeOf a`)
+2. `SortedMol ms n` (what the serializer guarantees about the printed graph), `sortedSyms_astOf` (expanding
+   the Hill formula and sorting stably by atomic number reproduces the label order), `denote_astOf`
+3. `C03_iso` (listener half), `V4`, `graphFromTucan`, `C03_main`; lifted: `C03_serialize`, `C03_pipeline`
+4. `C02_main` (label level, through the parser), `MolOK`, `sortedMol_sortGraph`, `serialize_molecule_sorted`,
+   `C02_serialize`, `C02_pipeline`
+5. `Respell`, `C11_denote`, `C11_main`: respellings denote the same molecule
+6. `render_inj` (a string has one reading) ⇒ `V4_satisfiable`, and the recogniser-free versions
+   `C02_main'`, `C02_serialize'`, `C02_pipeline'`
+7. satisfiability of the hypotheses (`exHF`)
 
-The ANTLR recogniser is not verified: it enters as the hypothesis `V4 antlr` (DESIGN.md §4, V4).
+The ANTLR recogniser is not verified: where it is needed (C03: "parsing the string") it enters as the
+hypothesis `V4 antlr` (DESIGN.md §4, V4) about an abstract `antlr : Str → Option PTree`.
 -/
 import Contracts.Parser
 import Contracts.Layout
@@ -1763,4 +1771,171 @@ theorem render_inj {a b : Ast} (ha : a.Wf) (hb : b.Wf) (e : render a = render b)
   simp only at f1 key
   rw [f1, key.1, key.2]
 
+/-! ### consequences -/
+
+open Classical in
+/-- the reference recogniser: the tree of the unique well-formed reading, if there is one -/
+noncomputable def refAntlr (s : Str) : Option PTree :=
+  if h : ∃ a : Ast, a.Wf ∧ render a = s then some (treeOf (Classical.choose h)) else none
+
+/-- **Assumption V4 is satisfiable** (it does not contradict itself: a string has only one reading) -/
+theorem V4_satisfiable : ∃ antlr, V4 antlr := by
+  refine ⟨refAntlr, ?_⟩
+  intro a ha _
+  have h : ∃ b : Ast, b.Wf ∧ render b = render a := ⟨a, ha, rfl⟩
+  unfold refAntlr
+  rw [dif_pos h]
+  have := Classical.choose_spec h
+  rw [render_inj this.1 ha this.2]
+
+/-- **C02, label level, without any assumption on the recogniser.** -/
+theorem C02_main' {ms₁ ms₂ : Graph} {n₁ n₂ : Nat} (h₁ : SortedMol ms₁ n₁) (h₂ : SortedMol ms₂ n₂)
+    (e : tucanSpec ms₁ = tucanSpec ms₂) : n₁ = n₂ ∧ IdIso ms₁ ms₂ := by
+  have ea : astOf ms₁ = astOf ms₂ := by
+    apply render_inj h₁.astOf_wf h₂.astOf_wf
+    rw [← tucanSpec_eq_render, ← tucanSpec_eq_render, e]
+  have em : molOf ms₁ n₁ = molOf ms₂ n₂ := by
+    have d₁ := denote_astOf h₁
+    have d₂ := denote_astOf h₂
+    rw [ea, d₂] at d₁
+    exact (Except.ok.inj d₁).symm
+  have hn : n₁ = n₂ := by
+    have := congrArg (fun m => m.atoms.length) em
+    simpa [molOf] using this
+  subst hn
+  refine ⟨rfl, ?_, ?_, ?_⟩
+  · intro i; rw [h₁.nodes.mem_iff, h₂.nodes.mem_iff]
+  · intro i k hk
+    by_cases hi : i ∈ ms₁.nodeList
+    · have hi₂ : i ∈ ms₂.nodeList := by rw [h₂.nodes.mem_iff, ← h₁.nodes.mem_iff]; exact hi
+      obtain ⟨h0, hlt⟩ := (mem_nodeList_iff h₁.nodes i).1 hi
+      obtain ⟨j, rfl⟩ := Int.eq_ofNat_of_zero_le h0
+      have hj : j < n₁ := by omega
+      have ea : atomAt ms₁ j = atomAt ms₂ j := by
+        have := congrArg (fun m => m.atoms[j]?) em
+        simpa [molOf, hj] using this
+      obtain ⟨_, s2, s3⟩ := h₁.sym_spec hj
+      obtain ⟨_, t2, t3⟩ := h₂.sym_spec hj
+      have esym : symAt ms₁ j = symAt ms₂ j := congrArg Atom.symbol ea
+      have emass : intAt ms₁ j "mass" = intAt ms₂ j "mass" := congrArg Atom.mass ea
+      have erad : intAt ms₁ j "rad" = intAt ms₂ j "rad" := congrArg Atom.rad ea
+      simp only [idKeys, List.mem_cons, List.not_mem_nil, or_false] at hk
+      rcases hk with rfl | rfl | rfl | rfl
+      · rw [s2, t2, esym]
+      · rw [s3, t3, esym]
+      · rw [← intAt_map (h₁.mass _ hi), ← intAt_map (h₂.mass _ hi₂), emass]
+      · rw [← intAt_map (h₁.rad _ hi), ← intAt_map (h₂.rad _ hi₂), erad]
+    · have hi₂ : i ∉ ms₂.nodeList := by rw [h₂.nodes.mem_iff, ← h₁.nodes.mem_iff]; exact hi
+      rw [attr_eq_none_of_not_mem hi, attr_eq_none_of_not_mem hi₂]
+  · intro i j
+    rw [← bonded_molOf h₁, ← bonded_molOf h₂, em]
+
+open Contracts.FinalLabels in
+/-- **C02 for `serialize_molecule`, without any assumption on the recogniser.** -/
+theorem C02_serialize' (env : DepEnv) (hs : env.SetLawful)
+    (fuel₁ fuel₂ : Nat) {m₁ m₂ m₁' m₂' : Graph} {s : Str} (h₁ : MolOK m₁) (h₂ : MolOK m₂)
+    (c₁ : Carries m₁ "partition") (c₂ : Carries m₂ "partition")
+    (f₁ : fuel₁ ≥ fuelBound m₁) (f₂ : fuel₂ ≥ fuelBound m₂)
+    (e₁ : Tucan.serialization.serialize_molecule env fuel₁ m₁ = .ok (s, m₁'))
+    (e₂ : Tucan.serialization.serialize_molecule env fuel₂ m₂ = .ok (s, m₂')) :
+    ∃ π, ∀ k ∈ idKeys, Graph.IsIsoOn k π m₁ m₂ := by
+  obtain ⟨antlr, hV4⟩ := V4_satisfiable
+  exact C02_serialize antlr hV4 env hs fuel₁ fuel₂ h₁ h₂ c₁ c₂ f₁ f₂ e₁ e₂
+
+open Contracts.FinalLabels in
+/-- **C02, whole pipeline, without any assumption on the recogniser**: if canonicalization followed by
+serialization gives two molecules the same TUCAN string, they are isomorphic as graphs coloured by element
+symbol, atomic number, mass and rad. Contrapositive: non-isomorphic molecules have different strings. -/
+theorem C02_pipeline' {env : DepEnv} (hs : env.SetLawful)
+    (hb : BlissLawful env) {m₁ m₂ c₁ c₂ c₁' c₂' : Graph} {s : Str}
+    (h₁ : MolOK m₁) (h₂ : MolOK m₂) (ne₁ : m₁.nodeList ≠ []) (ne₂ : m₂.nodeList ≠ [])
+    (ic₁ : Carries m₁ "invariant_code") (ic₂ : Carries m₂ "invariant_code")
+    (fa₁ fb₁ fa₂ fb₂ : Nat) (hfa₁ : fa₁ ≥ m₁.nodeList.length + 1) (hfa₂ : fa₂ ≥ m₂.nodeList.length + 1)
+    (hfb₁ : fb₁ ≥ fuelBound m₁) (hfb₂ : fb₂ ≥ fuelBound m₂)
+    (r₁ : Tucan.canonicalization.canonicalize_molecule env fa₁ m₁ = .ok c₁)
+    (r₂ : Tucan.canonicalization.canonicalize_molecule env fa₂ m₂ = .ok c₂)
+    (e₁ : Tucan.serialization.serialize_molecule env fb₁ c₁ = .ok (s, c₁'))
+    (e₂ : Tucan.serialization.serialize_molecule env fb₂ c₂ = .ok (s, c₂')) :
+    ∃ π, ∀ k ∈ idKeys, Graph.IsIsoOn k π m₁ m₂ := by
+  obtain ⟨antlr, hV4⟩ := V4_satisfiable
+  exact C02_pipeline antlr hV4 hs hb h₁ h₂ ne₁ ne₂ ic₁ ic₂ fa₁ fb₁ fa₂ fb₂ hfa₁ hfa₂ hfb₁ hfb₂ r₁ r₂ e₁ e₂
+
+/-! ## 7. the hypotheses are satisfiable -/
+
+/-- hydrogen fluoride with a deuterium: `H` (mass 2) — `F` -/
+def exHF : Graph :=
+  ((Graph.empty.addNode 0 ⟨[("element_symbol", Val.str py!"H"), ("atomic_number", Val.int 1), ("mass", Val.int 2)]⟩).addNode 1
+    ⟨[("element_symbol", Val.str py!"F"), ("atomic_number", Val.int 9)]⟩).addEdge 0 1 Dict.empty
+
+theorem small_lit (i : Int) (h : i < 100) : i < 10 ^ 4300 :=
+  lt_of_lt_of_le h (by
+    calc (100 : Int) = 10 ^ 2 := by norm_num
+      _ ≤ 10 ^ 4300 := pow_le_pow_right₀ (by norm_num) (by norm_num))
+
+/-- `SortedMol` (hence `MolOK`-like data) is satisfiable by a molecule with a bond and an isotope label -/
+example : SortedMol exHF 2 := by
+  have w0 : (Graph.empty.addNode 0 ⟨[("element_symbol", Val.str py!"H"), ("atomic_number", Val.int 1), ("mass", Val.int 2)]⟩).WF :=
+    Graph.WF_addNode Graph.WF_empty 0 (by unfold Dict.WF Dict.keys; decide)
+  have w1 := Graph.WF_addNode w0 1 (a := ⟨[("element_symbol", Val.str py!"F"), ("atomic_number", Val.int 9)]⟩) (by unfold Dict.WF Dict.keys; decide)
+  have w : exHF.WF := Graph.WF_addEdge w1 0 1 Dict.empty
+  have hn : exHF.nodeList = [0, 1] := by decide
+  have hnb : ∀ x y, y ∈ exHF.nbrs x ↔ (x = 0 ∧ y = 1) ∨ (x = 1 ∧ y = 0) := by
+    intro x y
+    unfold exHF
+    rw [Graph.mem_nbrs_addEdge w1, Graph.nbrs_addNode w0, Graph.nbrs_addNode Graph.WF_empty]
+    simp [Graph.nbrs, Graph.empty, Dict.empty, Dict.get?]
+  refine ⟨w, ?_, ?_, ?_, ?_, ?_, ?_, ?_⟩
+  · intro u hu
+    rw [hnb] at hu; omega
+  · rw [hn]; exact List.Perm.refl _
+  · exact_mod_cast small_lit 2 (by norm_num)
+  · intro i hi
+    rw [hn] at hi
+    simp only [List.mem_cons, List.not_mem_nil, or_false] at hi
+    rcases hi with rfl | rfl
+    · exact ⟨py!"H", by decide, by decide, by decide⟩
+    · exact ⟨py!"F", by decide, by decide, by decide⟩
+  · intro i hi j hj hij x y hx hy
+    rw [hn] at hi hj
+    simp only [List.mem_cons, List.not_mem_nil, or_false] at hi hj
+    rcases hi with rfl | rfl <;> rcases hj with rfl | rfl
+    · omega
+    · have e1 : exHF.attr 0 "atomic_number" = some (Val.int 1) := by decide
+      have e2 : exHF.attr 1 "atomic_number" = some (Val.int 9) := by decide
+      rw [e1] at hx; rw [e2] at hy
+      cases hx; cases hy; decide
+    · omega
+    · omega
+  · intro i hi v hv
+    rw [hn] at hi
+    simp only [List.mem_cons, List.not_mem_nil, or_false] at hi
+    rcases hi with rfl | rfl
+    · have e1 : exHF.attr 0 "mass" = some (Val.int 2) := by decide
+      rw [e1] at hv; cases hv
+      exact ⟨2, by norm_num, small_lit 2 (by norm_num), rfl⟩
+    · have e1 : exHF.attr 1 "mass" = none := by decide
+      rw [e1] at hv; cases hv
+  · intro i hi v hv
+    rw [hn] at hi
+    simp only [List.mem_cons, List.not_mem_nil, or_false] at hi
+    rcases hi with rfl | rfl
+    · have e1 : exHF.attr 0 "rad" = none := by decide
+      rw [e1] at hv; cases hv
+    · have e1 : exHF.attr 1 "rad" = none := by decide
+      rw [e1] at hv; cases hv
+
 end Contracts.RoundTrip
+
+#print axioms Contracts.RoundTrip.tucanSpec_eq_render
+#print axioms Contracts.RoundTrip.astOf_wf
+#print axioms Contracts.RoundTrip.denote_astOf
+#print axioms Contracts.RoundTrip.C03_iso
+#print axioms Contracts.RoundTrip.C03_main
+#print axioms Contracts.RoundTrip.C03_pipeline
+#print axioms Contracts.RoundTrip.C02_main
+#print axioms Contracts.RoundTrip.C02_main'
+#print axioms Contracts.RoundTrip.C02_pipeline
+#print axioms Contracts.RoundTrip.C02_pipeline'
+#print axioms Contracts.RoundTrip.render_inj
+#print axioms Contracts.RoundTrip.V4_satisfiable
+#print axioms Contracts.RoundTrip.C11_main
